@@ -25,11 +25,12 @@ Definition hbody (cfg : config) (pol : policy) (s : store) (r : request) : store
   | RGet p => (s, do_get pol s p)
   | RPropfind p d => (s, do_propfind pol s p d)
   | RMultiget p cal hs => (s, do_multiget pol s p cal hs)
+  | RQuery p k flt => (s, do_query pol s p k flt)
   end.
 
 (* the lock mode each handler asks for (tied to the source by Gen_sections_ok, Proofs/C09Skeleton.v) *)
 Definition hmode (r : request) : lmode :=
-  match r with RGet _ | RPropfind _ _ | RMultiget _ _ _ => Rd | _ => Wr end.
+  match r with RGet _ | RPropfind _ _ | RMultiget _ _ _ | RQuery _ _ _ => Rd | _ => Wr end.
 
 (* ---- home provisioning ---- *)
 (* [storage] predefined_collections: name below the home, tag, properties (non-empty in the real config) *)
